@@ -48,7 +48,7 @@ var fixtureSQL = []string{
 	`CREATE TRIGGER trg_t_bu BEFORE UPDATE ON t FOR EACH ROW SET NEW.b = COALESCE(NEW.b, OLD.b)`,
 	`CREATE VIEW v AS SELECT t.id, t.a, u.v FROM t LEFT JOIN u ON u.tid = t.id`,
 	`CREATE PROCEDURE p1(IN x INT, OUT y INT) BEGIN DECLARE z INT DEFAULT 0; SET z = x + 1; IF z > 3 THEN SET y = z; ELSE SET y = -z; END IF; SELECT y; END`,
-	`CREATE PROCEDURE p2(x INT) BEGIN DECLARE EXIT HANDLER FOR SQLEXCEPTION SELECT 'handled'; INSERT INTO t VALUES (x, x, 'p2', 0); INSERT INTO t VALUES (x, x, 'p2', 0); END`,
+	`CREATE PROCEDURE p2(x INT) BEGIN DECLARE EXIT HANDLER FOR NOT FOUND SELECT 'handled'; INSERT INTO t VALUES (x, x, 'p2', 0); INSERT INTO t VALUES (x, x, 'p2', 0); END`,
 	`CREATE TABLE geo (id INT PRIMARY KEY, g GEOMETRY NOT NULL SRID 0, SPATIAL KEY sg (g))`,
 	`INSERT INTO geo VALUES (1, POINT(1,1)), (2, ST_GeomFromText('LINESTRING(0 0,2 2)')), (3, ST_GeomFromText('POLYGON((0 0,0 3,3 3,3 0,0 0))'))`,
 	`CREATE DATABASE zc`,
